@@ -43,6 +43,8 @@ def render(p, rng, types_of):
             return ind + "PRINT %s%s" % (nm(s["b"], s["sfx"], rng), el)
         if k == "dimsfx" and s.get("arr"):
             return ind + "DIM %s(3)" % nm(s["b"], s["sfx"], rng)
+        if k == "redim":
+            return ind + "REDIM %s(3)" % nm(s["b"], s["sfx"], rng)
         if k == "dimas":
             return ind + "DIM %s%s AS %s" % ("SHARED " if s["shared"] else "", nm(s["b"], "", rng), TN[s["t"]])
         if k == "dimsfx":
@@ -227,6 +229,20 @@ def gen(tier, rng):
                             if o["k"] == "let":
                                 o["vt"] = t if (use_sfx in ("", t) and (ext or use_sfx == t or (use_sfx == "" and t == "S"))) else (use_sfx or "S")
                         progs.append(("param", pr))
+    # REDIM with a bare name and with every suffix while a dynamic array of another (or the same) type exists, under every
+    # default type of the letter: the bare name is the array of the default type
+    for t in TYPES:
+        for dflt in [None] + TYPES:
+            for second in SFX:
+                for where in ("main", "sub"):
+                    defs = [] if dflt is None else [{"t": dflt, "lo": 66, "hi": 66}]
+                    ops = [mk("redim", "B", sfx=t), mk("let", "B", sfx=t, arr=True), mk("redim", "B", sfx=second),
+                           mk("print", "B", sfx=t, arr=True), mk("print", "B", sfx=second, arr=True)]
+                    pr = build(defs, ops if where == "main" else [{"k": "call"}], ops if where == "sub" else [])
+                    for o in pr["main"] + pr["sub"]:
+                        if o["k"] == "let":
+                            o["vt"] = t
+                    progs.append(("redim", pr))
     # the name of a FUNCTION: every use and declaration of it, with every suffix, in main and inside a SUB
     for t in TYPES:
         for use_sfx in SFX:
